@@ -144,8 +144,9 @@ macro_rules! run_map {
     }};
 }
 
-fn run_builder(decl: &[Vec<OpD>], m: (bool, bool, bool), tokens: &[R]) -> String {
-    let mut pratt: PrattParser<R> = PrattParser::new();
+#[inline(never)]
+fn run_builder_from(start: PrattParser<R>, decl: &[Vec<OpD>], m: (bool, bool, bool), tokens: &[R]) -> String {
+    let mut pratt = start;
     for lv in decl {
         let mut it = lv.iter();
         let mut op = K::o(*it.next().unwrap());
@@ -153,6 +154,12 @@ fn run_builder(decl: &[Vec<OpD>], m: (bool, bool, bool), tokens: &[R]) -> String
         pratt = pratt.op(op);
     }
     run_map!(pratt, m, tokens)
+}
+/// both public ways of starting a table: PrattParser::new() and PrattParser::default()
+fn run_builder(decl: &[Vec<OpD>], m: (bool, bool, bool), tokens: &[R]) -> String {
+    let a = run_builder_from(PrattParser::new(), decl, m, tokens);
+    let b = run_builder_from(PrattParser::default(), decl, m, tokens);
+    if a == b { a } else { format!("!new-and-default-differ new={} default={}", a, b) }
 }
 
 /// `pratt_precedence![K::o(v[0]), K::o(v[1]), ..]` with one operator per level, for the prefix lengths marked with `!`
